@@ -10,8 +10,10 @@ sides of the bridge; `Val.ty` is `reflect.TypeOf` (`none` for the nil interface)
 * the deferred closure (`shape` = facts about the source text of `Run`, regenerated
   from `/repo` on every check: is the first statement a `defer` of a closure which
   calls `recover()` and assigns the named result `err`?),
-* the argument loop: too-many check, `convertNumber` (by the *kind* of the
-  parameter), the type check with its escape clauses,
+* the argument loop: too-many check (`Shape.arityChecked`: is it in the source?),
+  `convertNumber` (by the *kind* of the parameter — a defined type `type D int64` has
+  the kind of its underlying type but its own identity), the type check with its
+  escape clauses,
 * `reflect.Value.Call` — reflect's own panics (wrong number of arguments, zero
   Value, value not assignable) are `panic` INSIDE the recover scope,
 * the function body (`body`, universally quantified in the theorems; may panic),
@@ -109,7 +111,9 @@ inductive Ty where
   | ifaceOther (id : Nat)      -- any other interface type
   | slice (elem : Ty)          -- []elem ; `slice iface` = []interface{} = an ECAL list
   | emap                       -- map[interface{}]interface{} = an ECAL map
-  | other (id : Nat)           -- any other non-interface type (pointers, structs, funcs, named types …)
+  | other (id : Nat)           -- any other non-interface type (pointers, structs, funcs …)
+  | named (id : Nat) (under : Ty)   -- a defined type (`type D int64`) with a non-interface underlying type:
+                                    -- its own identity, the Kind of `under`
   deriving DecidableEq, Repr, Inhabited
 
 namespace Ty
@@ -137,6 +141,7 @@ inductive Val where
   | list (c : String)                -- []interface{}
   | map (c : String)                 -- map[interface{}]interface{}
   | foreign (t : Ty) (c : String)    -- any other value of dynamic type `t` (ECAL function objects, errors, []int …)
+  | named (id : Nat) (v : Val)       -- the value `v` converted to the defined type `id`
   deriving DecidableEq, Repr, Inhabited
 
 /-- `reflect.TypeOf` -/
@@ -150,6 +155,7 @@ def Val.ty : Val → Option Ty
   | .list _ => some .list
   | .map _ => some .emap
   | .foreign t _ => some t
+  | .named id v => v.ty.map (Ty.named id)
 
 /-- signature of the wrapped function as reflect reports it: `params = In(0..NumIn-1)`
     (for a variadic function the last one is the slice type), `results = Out(0..NumOut-1)` -/
@@ -168,6 +174,7 @@ def convertNumber (oob : IntKind → Num → Int) (x : Num) : Ty → Val
     | some n => if k.inRange n then .int k n else .int k (oob k x)
     | none => .int k (oob k x)
   | .f32 => .f32 x.toF32
+  | .named _ u => convertNumber oob x u      -- the Kind of a defined type is the Kind of its underlying type
   | _ => .f64 x
 
 inductive BridgeErr where
@@ -253,13 +260,19 @@ inductive BodyOut where
   | panic
   deriving Repr
 
+/-- `float64(v.Int())`, `float64(v.Uint())`, `v.Float()` for a value of a static type of numeric Kind -/
+def numericOf : Ty → Val → Option Num
+  | .int _, .int _ n => some (Num.ofInt n)
+  | .f32, .f32 x => some x
+  | .f64, .f64 x => some x
+  | .named _ u, .named _ w => numericOf u w
+  | _, _ => none
+
 /-- `convertResultNumber`: switch over `v.Kind()`, the kind of the *static* result type -/
 def convertResultNumber (static : Ty) (v : Val) : Val :=
-  match static, v with
-  | .int _, .int _ n => .f64 (Num.ofInt n)
-  | .f32, .f32 x => .f64 x
-  | .f64, .f64 x => .f64 x
-  | _, v => v
+  match numericOf static v with
+  | some x => .f64 x
+  | none => v
 
 inductive Err where
   | bridge (e : BridgeErr)
